@@ -32,17 +32,108 @@ Inductive tok :=
 
 Definition ptok := (tok * pos)%type.
 
-Definition tok_eq_dec : forall a b : tok, {a = b} + {a <> b}.
+Definition tok_tag (t : tok) : positive :=
+  match t with
+  | IDENT _ => 1 | INT _ => 2 | FLOAT _ => 3 | STRING _ => 4 | BYTES _ => 5 | RESERVED _ => 6
+  | EOF => 7
+  | NEWLINE => 8
+  | INDENT => 9
+  | OUTDENT => 10
+  | PLUS => 11
+  | MINUS => 12
+  | STAR => 13
+  | SLASH => 14
+  | SLASHSLASH => 15
+  | PERCENT => 16
+  | AMP => 17
+  | PIPE => 18
+  | CIRCUMFLEX => 19
+  | LTLT => 20
+  | GTGT => 21
+  | TILDE => 22
+  | DOT => 23
+  | COMMA => 24
+  | EQ => 25
+  | SEMI => 26
+  | COLON => 27
+  | LPAREN => 28
+  | RPAREN => 29
+  | LBRACK => 30
+  | RBRACK => 31
+  | LBRACE => 32
+  | RBRACE => 33
+  | LT => 34
+  | GT => 35
+  | GE => 36
+  | LE => 37
+  | EQL => 38
+  | NEQ => 39
+  | PLUS_EQ => 40
+  | MINUS_EQ => 41
+  | STAR_EQ => 42
+  | SLASH_EQ => 43
+  | SLASHSLASH_EQ => 44
+  | PERCENT_EQ => 45
+  | AMP_EQ => 46
+  | PIPE_EQ => 47
+  | CIRCUMFLEX_EQ => 48
+  | LTLT_EQ => 49
+  | GTGT_EQ => 50
+  | STARSTAR => 51
+  | AND => 52
+  | BREAK => 53
+  | CONTINUE => 54
+  | DEF => 55
+  | ELIF => 56
+  | ELSE => 57
+  | FOR => 58
+  | IF => 59
+  | IN => 60
+  | LAMBDA => 61
+  | LOAD => 62
+  | NOT => 63
+  | NOT_IN => 64
+  | OR => 65
+  | PASS => 66
+  | RETURN => 67
+  | WHILE => 68
+  end%positive.
+
+Definition bytes_eqb (x y : list Z) : bool := if list_eq_dec Z.eq_dec x y then true else false.
+
+Definition payload_eqb (a b : tok) : bool :=
+  match a with
+  | IDENT x => match b with IDENT y => String.eqb x y | _ => false end
+  | RESERVED x => match b with RESERVED y => String.eqb x y | _ => false end
+  | INT x => match b with INT y => Z.eqb x y | _ => false end
+  | FLOAT x => match b with FLOAT y => Z.eqb x y | _ => false end
+  | STRING x => match b with STRING y => bytes_eqb x y | _ => false end
+  | BYTES x => match b with BYTES y => bytes_eqb x y | _ => false end
+  | _ => true
+  end.
+
+Definition tok_eqb (a b : tok) : bool := Pos.eqb (tok_tag a) (tok_tag b) && payload_eqb a b.
+
+Lemma bytes_eqb_eq x y : bytes_eqb x y = true <-> x = y.
+Proof. unfold bytes_eqb. destruct (list_eq_dec Z.eq_dec x y); split; congruence. Qed.
+
+Lemma tok_eqb_refl a : tok_eqb a a = true.
 Proof.
-  decide equality; try apply string_dec; try apply Z.eq_dec;
-    apply (list_eq_dec Z.eq_dec).
-Defined.
-Definition tok_eqb (a b : tok) : bool := if tok_eq_dec a b then true else false.
+  unfold tok_eqb. rewrite Pos.eqb_refl.
+  destruct a; cbn; try reflexivity; try apply String.eqb_refl; try apply Z.eqb_refl;
+    apply bytes_eqb_eq; reflexivity.
+Qed.
 
 Lemma tok_eqb_eq a b : tok_eqb a b = true <-> a = b.
-Proof. unfold tok_eqb. destruct (tok_eq_dec a b); split; congruence. Qed.
-Lemma tok_eqb_refl a : tok_eqb a a = true.
-Proof. apply tok_eqb_eq. reflexivity. Qed.
+Proof.
+  split; [|intros ->; apply tok_eqb_refl].
+  unfold tok_eqb. intros H. apply andb_true_iff in H. destruct H as [Ht Hp].
+  apply Pos.eqb_eq in Ht.
+  destruct a; destruct b; cbn in Ht; try discriminate Ht; try reflexivity; cbn in Hp;
+    try (apply String.eqb_eq in Hp; congruence);
+    try (apply Z.eqb_eq in Hp; congruence);
+    try (apply bytes_eqb_eq in Hp; congruence).
+Qed.
 
 (* the lookahead token: the scanner returns EOF for ever at the end *)
 Definition peek (ts : list ptok) : tok :=
